@@ -18,7 +18,7 @@ RULE = ("case = (library molecule, distortion seed, method, force mode, ground/e
 ASSUMPTIONS = ["float64 CPU", "scf_eps 1e-10 so that SCF noise is below the 1e-7 eV / 5e-6 eV/A bounds",
                "excited-state comparisons only for roots separated by >= 0.05 eV from neighbours"]
 REQUIRED_MONITORS = ["transforms_compared", "singular_transforms_compared", "state_dipoles_compared",
-                     "state_forces_compared"]
+                     "state_forces_compared", "learned_parameter_transforms_compared"]
 CASE_TIMEOUT = 900.0
 
 TOL_E = 1e-7
@@ -28,6 +28,7 @@ TOL_F = 5e-6
 TOL_MU = 5e-6
 TOL_EXC = 2e-6
 D_ELEMENTS_PM6 = {13, 14, 15, 16, 17}
+LEARNED_NAMES = ("U_ss", "U_pp", "zeta_s", "zeta_p", "beta_s", "beta_p", "g_ss", "g_sp", "g_pp", "g_p2", "h_sp", "alpha")
 
 
 def gen_cases(tier, seed):
@@ -36,7 +37,8 @@ def gen_cases(tier, seed):
     if tier == "quick":
         plan = [("AM1", "autodiff", 5), ("PM3", "analytical", 5), ("MNDO", "numerical", 3), ("PM6_SP", "analytical", 4),
                 ("PM6", "autodiff", 2), ("PM6", "autodiff-d", 2), ("AM1", "excited", 2), ("AM1", "uhf", 3), ("PM3", "uhf-analytical", 2),
-                ("AM1", "cutoff", 2), ("PM3", "cutoff-analytical", 1), ("AM1", "excited_all", 2)]
+                ("AM1", "cutoff", 2), ("PM3", "cutoff-analytical", 1), ("AM1", "excited_all", 2),
+                ("AM1", "learned", 2), ("PM3", "learned", 1)]
         ncone = [0.0, 1e-4, 1e-8]
         nhaar = 2
     else:
@@ -47,7 +49,8 @@ def gen_cases(tier, seed):
                 ("PM6", "autodiff", 20), ("PM6", "autodiff-d", 20), ("AM1", "excited", 20), ("PM3", "excited_rpa", 8),
                 ("AM1", "uhf", 25), ("MNDO", "uhf", 15), ("PM3", "uhf-analytical", 15), ("PM6_SP", "uhf", 10),
                 ("AM1", "cutoff", 15), ("PM3", "cutoff-analytical", 10), ("MNDO", "cutoff", 8),
-                ("AM1", "excited_all", 8), ("PM3", "excited_all", 4)]
+                ("AM1", "excited_all", 8), ("PM3", "excited_all", 4),
+                ("AM1", "learned", 12), ("PM3", "learned", 8), ("MNDO", "learned", 6)]
         ncone = [0.0, 1e-2, 1e-3, 3e-4, 1e-4, 1e-6, 1e-8, 1e-10]
         nhaar = 6
     pool_all = gen.CLOSED_NEUTRAL + gen.IONS
@@ -113,6 +116,8 @@ def _settings(method, mode, cutoff=None):
                             excited={"n_states": 3, "tolerance": 1e-8, "method": "cis",
                                      "compute_transition_properties": True}, active_state=1,
                             extra={"nonadiabatic": {"compute_nac": True}})
+    if mode == "learned":  # caller-supplied per-atom parameters + per-pair resonance scaling (learned_parameters)
+        return run.settings(method, eps=1e-10, converger=(2,), extra={"learned": list(LEARNED_NAMES)})
     if mode == "excited_all":  # forces and relaxed / unrelaxed dipoles of EVERY state (do_all_forces)
         return run.settings(method, eps=1e-10, converger=(2,), grad="analytical",
                             excited={"n_states": 3, "tolerance": 1e-8, "method": "cis"}, active_state=1,
@@ -181,8 +186,27 @@ def run_case(case):
     g0 = np.random.default_rng(case["geom_seed"] + 1)
     R0 = gen.generic_rotation(Xd, g0)
     Xref = Xd @ R0.T
-    ref = run.single_point(Z, Xref, sett, charges=q, mult=m)
     viol, margins, mon, cells = [], {}, {"transforms_compared": 0, "singular_transforms_compared": 0}, []
+    if mode == "learned":
+        # per-atom parameters = table values perturbed by 2 % independently per ATOM (same-element atoms differ) and a
+        # per-pair (s-s, s-p, p-s, p-p) resonance scaling 'Kbeta' with unequal columns; identical in every frame
+        import torch
+        plain = run.single_point(Z, Xref, run.settings(method, eps=1e-10, converger=(2,)), charges=q, mult=m, keep=True)
+        rg = np.random.default_rng(case["geom_seed"] + 7)
+        tab = plain["_mol"].parameters
+        L0 = {k: tab[k].detach().clone() * torch.as_tensor(1.0 + 0.02 * rg.standard_normal(tuple(tab[k].shape))) for k in LEARNED_NAMES}
+        L0["Kbeta"] = torch.as_tensor(1.0 + 0.06 * rg.standard_normal((len(Z) * (len(Z) - 1) // 2, 4)))
+
+        def evaluate(Xc):
+            LL = {a: b.clone() for a, b in L0.items()}
+            with run.quiet():
+                mol_, es_, _ = run.build(Z, Xc, sett, q, m, learned=LL)
+                es_(mol_, learned_parameters=LL)
+            return run.harvest(mol_, es_)
+    else:
+        def evaluate(Xc):
+            return run.single_point(Z, Xc, sett, charges=q, mult=m)
+    ref = evaluate(Xref)
     if ref["notconverged"] is not None and bool(np.any(ref["notconverged"])):
         return {"ineligible": "reference run not converged"}
     nat = len(Z)
@@ -251,7 +275,7 @@ def run_case(case):
                 if p != k:
                     Xt[ja, p] = Xt[ia, p]
         try:
-            out = run.single_point(Z, Xt, sett, charges=q, mult=m)
+            out = evaluate(Xt)
         except Exception as e:  # the reference orientation of the same molecule completed
             msg = "%s: %s" % (type(e).__name__, str(e)[:300])
             if re.search(r"not converge|did not converge|max(imum)? (number of )?iter", msg, re.I):
@@ -265,6 +289,8 @@ def run_case(case):
         if out["notconverged"] is not None and bool(np.any(out["notconverged"])):
             continue
         mon["transforms_compared"] += 1
+        if mode == "learned":
+            mon["learned_parameter_transforms_compared"] = mon.get("learned_parameter_transforms_compared", 0) + 1
         if t["kind"] == "align":
             mon["singular_transforms_compared"] += 1
             cells.append("%s/%s/align%s/cone%g" % (method, mode, t["axis"], t["cone"]))
